@@ -566,3 +566,121 @@ def build_pair_query(db, prog, name, pairing=None, extra_cuts=None, propid='C01'
             'labels_ref_only': [l for l in lr if l not in set(lx)], 'unrelated': unrelated,
             'related': [k for k, _ in checks], 'chunk': ([only[0], only[-1]] if only is not None else None), 'truncated_at': TRUNCATE.get(name), 'skipped_dead_cuts': dead, 'literal_clusters': sum(1 for t, r in rep.items() if repr(float(t)) != r)}
     return {'c': '\n\n'.join(parts) + '\n', 'entry': 'harness', 'meta': meta}
+
+
+# ----------------------------------------------------------------------------------------------
+# the leaf: randomize_particle vs the reference's  particle(np,E1,E2,teta1,teta2,phi1,phi2,tclev,thlev,tdlev)
+# ----------------------------------------------------------------------------------------------
+
+def build_leaf_query(db, prog, propid='C01'):
+    """C++ leaf (real body, real particle/event accessors, vector shim) against the reference leaf writing its event
+    record; both loop free: one monolithic UF query.  Relation after the call: same deviates consumed in the same
+    order, same species, same momentum, same tdlev, C++ time == previous time + reference delay (documented
+    admissible difference: absolute instead of incremental times)."""
+    import genbb
+    T = db['types']
+    fx = db['funcs']['randomize_particle']
+    fr = prog.translate('particle')
+    inl = []
+    todo = sorted(fx.calls)
+    while todo:
+        c = todo.pop(0)
+        if c in db['funcs'] and c not in inl:
+            inl.append(c)
+            todo += sorted(db['funcs'][c].calls)
+    lits = set()
+    collect_literals(fx, lits)
+    collect_literals(fr, lits)
+    for c in inl:
+        collect_literals(db['funcs'][c], lits)
+    inits = genbb.common_inits(fr, prog)
+    for nm, vals, dims in inits:
+        for v in vals:
+            v = v.strip().lower().replace('d', 'e').lstrip('+-')
+            if not re.match(r'^\d+$', v):
+                if v.endswith('.'):
+                    v += '0'
+                if v.startswith('.'):
+                    v = '0' + v
+                lits.add(re.sub(r'\.e', '.0e', v))
+    rep = cluster_literals(lits)
+    litmap = lambda t: rep.get(t, t)
+    o = bx2c.Opts(uf=True, litmap=litmap)
+    th, _ = extract.types_h(db)
+    parts = [PRELUDE % {'types': th, 'dargs': ', '.join(['double'] * NA), 'NE': NE, 'ND': ND, 'NC': NC, 'NA': NA}]
+    parts.append('double nondet_double(void); int nondet_int(void); unsigned long nondet_ulong(void);')
+    parts.append('#define BX_LEAF_N 6\nstatic int ref_ev_npfull; static int r_npgeant[BX_LEAF_N + 2]; static double r_pmoment[3][BX_LEAF_N + 2]; static double r_ptime[BX_LEAF_N + 2];')
+    parts.append('static void ref_set_npgeant(int n, int v) { __CPROVER_assert(n >= 1 && n <= BX_LEAF_N + 1, "reference event index in range"); r_npgeant[n] = v; }')
+    parts.append('static void ref_set_pmoment(int k, int n, double v) { __CPROVER_assert(n >= 1 && n <= BX_LEAF_N + 1 && k >= 1 && k <= 3, "reference event index in range"); r_pmoment[k - 1][n] = v; }')
+    parts.append('static void ref_set_ptime(int n, double v) { __CPROVER_assert(n >= 1 && n <= BX_LEAF_N + 1, "reference event index in range"); r_ptime[n] = v; }')
+    parts.append(extract.protos_h(db))
+    for c in reversed(inl):
+        parts.append(bx2c.Printer(T, o).function(db['funcs'][c]))
+    parts.append(bx2c.Printer(T, o).function(fx))
+    # reference leaf with its locals and common-block constants
+    pr = bx2c.Printer(T, o)
+    L = [pr.signature(fr), '{']
+    pn = {p[1] for p in fr.params}
+    cinit = {nm: (vals, dims) for nm, vals, dims in inits}
+
+    def lit(v):
+        v = v.strip().lower().replace('d', 'e')
+        neg = v.startswith('-')
+        v = v.lstrip('+-')
+        if re.match(r'^\d+$', v):
+            return ('-' if neg else '') + v + '.0'
+        if v.endswith('.'):
+            v += '0'
+        if v.startswith('.'):
+            v = '0' + v
+        v = re.sub(r'\.e', '.0e', v)
+        return ('-' if neg else '') + litmap(v)
+    for (t, nm, did) in fr.locals:
+        if nm in pn:
+            continue
+        if nm in cinit:
+            vals, dims = cinit[nm]
+            if dims:
+                L.append('  %s = {%s};' % (T.decl(t, nm), ', '.join(lit(v) for v in vals)))
+            else:
+                L.append('  %s = %s;' % (T.decl(t, nm), lit(vals[0])))
+        else:
+            L.append('  %s;' % T.decl(t, nm))
+    pr.fn = fr
+    pr.lines = []
+    pr.stmt(fr.body, '  ')
+    L += pr.lines
+    L.append('}')
+    parts.append('\n'.join(L))
+    tag = '%s leaf randomize_particle vs particle' % propid
+    H = ['void harness(void)', '{']
+    H.append('  for (int i = 0; i < %d; i++) { double u = nondet_double(); __CPROVER_assume(u > 0.0 && u < 1.0); U[0][i] = u; }' % ND)
+    H.append('  epoch_x = 0; idx_x = 0; epoch_r = 0; idx_r = 0; bx_exc = 0;')
+    H.append('  static struct particle buf[BX_LEAF_N + 2];')
+    H.append('  unsigned long n0 = nondet_ulong(); __CPROVER_assume(n0 <= BX_LEAF_N);')
+    H.append('  for (int i = 0; i < BX_LEAF_N; i++) { buf[i]._time_ = nondet_double(); buf[i]._code_ = nondet_int(); }')
+    H.append('  ev_x._particles_.data = buf; ev_x._particles_.size = n0; ev_x._particles_.cap = BX_LEAF_N + 2; ref_ev_npfull = (int)n0;')
+    H.append('  int np = nondet_int(); __CPROVER_assume(np == 1 || np == 2 || np == 3 || np == 47);')
+    vs = ['e1', 'e2', 'teta1', 'teta2', 'phi1', 'phi2', 'tclev', 'thlev']
+    for v in vs:
+        H.append('  double %s = nondet_double();' % v)
+    H.append('  double tdx = nondet_double(), tdr = tdx;')
+    H.append('  const double last0 = (n0 == 0) ? 0.0 : buf[n0 - 1]._time_;')
+    H.append('  randomize_particle(&rng_x, &ev_x, np, %s, &tdx);' % ', '.join(vs))
+    H.append('  int exc_x = bx_exc; bx_exc = 0;')
+    H.append('  ref_particle(np, %s, &tdr);' % ', '.join(vs))
+    H.append('  __CPROVER_assert(bx_cap_ok, "relational harness capacity (deviates) suffices");')
+    H.append('  __CPROVER_assert(!exc_x, "%s: no exception for a known species");' % tag)
+    H.append('  __CPROVER_assert(idx_x == idx_r, "%s: same number of deviates consumed (phi, cos theta, [E], [time] in the reference order)");' % tag)
+    H.append('  __CPROVER_assert(ev_x._particles_.size == n0 + 1 && ref_ev_npfull == (int)n0 + 1, "%s: exactly one particle appended on both sides");' % tag)
+    H.append('  __CPROVER_assert(buf[n0]._code_ == r_npgeant[n0 + 1] && buf[n0]._code_ == np, "%s: same species");' % tag)
+    for k in range(3):
+        H.append('  __CPROVER_assert(bx_same(buf[n0]._momentum_[%d], r_pmoment[%d][n0 + 1]), "%s: same momentum component %d");' % (k, k, tag, k + 1))
+    H.append('  __CPROVER_assert(bx_same(tdx, tdr), "%s: same level decay delay tdlev");' % tag)
+    H.append('  __CPROVER_assert(bx_same(r_ptime[n0 + 1], tdr), "%s: the reference stores the delay");' % tag)
+    H.append('  __CPROVER_assert(bx_same(buf[n0]._time_, bx_add(last0, tdx)), "%s: C++ emission time = previous particle time + the reference delay (absolute instead of incremental times)");' % tag)
+    H.append('  __CPROVER_assert(0, "canary leaf: harness end is reachable (must be refuted)");')
+    H.append('}')
+    parts.append('\n'.join(H))
+    return {'c': '\n\n'.join(parts) + '\n', 'entry': 'harness',
+            'meta': {'function': 'randomize_particle', 'reference': 'particle', 'what': 'rel', 'cuts': [], 'inlined': inl}}
